@@ -14,6 +14,8 @@ import (
 	"time"
 
 	"gircverif/drive"
+
+	"github.com/lrstanley/girc"
 )
 
 func nickLines(lines []string) (out []string) {
@@ -118,5 +120,32 @@ func TestC17_NickSentVerbatimAtNicklen(t *testing.T) {
 	})
 	if got := nickLines(lines); !reflect.DeepEqual(got, []string{"LongAlternative_Nick"}) {
 		t.Fatalf("NICK lines with callback: %q", got)
+	}
+}
+
+// A PING that arrives while a background handler is busy is answered before that handler
+// returns (seeded regression C17-7: Caller.exec waiting for background handlers).
+func TestC17_PingWhileBackgroundHandlerBusy(t *testing.T) {
+	s := drive.Start(drive.BaseConfig())
+	defer s.Stop()
+	gate := make(chan struct{})
+	started := make(chan struct{}, 1)
+	s.C.Handlers.AddBg("PRIVMSG", func(*girc.Client, girc.Event) {
+		started <- struct{}{}
+		select {
+		case <-gate:
+		case <-time.After(8 * time.Second):
+		}
+	})
+	defer close(gate)
+	s.Send(":bob!b@h PRIVMSG me :go")
+	select {
+	case <-started:
+	case <-time.After(5 * time.Second):
+		t.Fatal("background handler did not start")
+	}
+	s.Send("PING :tok en")
+	if _, ok := s.WaitLine(func(l string) bool { return l == "PONG :tok en\r\n" }, 5*time.Second); !ok {
+		t.Fatal("PING not answered within 5s while a background handler was blocked")
 	}
 }
